@@ -11,6 +11,11 @@
 //	line was generated (recomputed when an input file is replayed: a replay file may give "?").
 //	The model validates it (it must consume lhs and produce rhs) and builds the chunks from it.
 //
+//	C <n> <lhs> <rhs> | (same output)
+//
+// the same run without an oracle: the driver computes the script with the model of
+// slice.EditScript (C11) and predicts everything from lhs and rhs.
+//
 // E: d.Edits after New.  N / A / U: d.Chunks after New, after AddContext(n), after Unify:
 // "." or '_'-joined chunks  LStart;LEnd;RStart;REnd;<edits>.  A panic is "panic:<kind>" (later
 // stages then print "-").
@@ -117,6 +122,9 @@ func input(n int, lhs, rhs []string) string {
 
 func exec(in string) string {
 	f := strings.Fields(in)
+	if len(f) == 4 && f[0] == "C" {
+		f = []string{"D", f[1], "", f[2], f[3]}
+	}
 	if len(f) != 5 || f[0] != "D" {
 		return "?"
 	}
@@ -261,11 +269,16 @@ func mutate(r *tr.Rand, alpha []string, lhs []string) []string {
 	return out
 }
 
-const rule = "C13: New(lhs, rhs).AddContext(n).Unify() on every pair of line sequences of length <= 5 over 2 symbols for every n in 0..3 (15876 cases, every run); every pair of length <= 3 (quick) / 4 (thorough) over 3 symbols, n in 0..3; random repetitive texts (a short block repeated with disturbances), random texts, and texts derived from one another by a few local edits (long common runs), lengths up to 40, alphabets of 2-4 lines including the empty line, n from {0,1,2,3,5,8,100} (n larger than every gap). The edit script slice.EditScript returned is recorded with the input (oracle) and compared with d.Edits. A case is non-trivial when there is at least one chunk and n > 0; counters say how many cases had several chunks, overlapping or adjacent chunks after AddContext, chunks merged by Unify, chunks kept apart by Unify."
+const rule = "C13: New(lhs, rhs).AddContext(n).Unify() on every pair of line sequences of length <= 5 over 2 symbols for every n in 0..3 (15876 cases, every run); every pair of length <= 3 (quick) / 4 (thorough) over 3 symbols, n in 0..3; random repetitive texts (a short block repeated with disturbances), random texts, and texts derived from one another by a few local edits (long common runs), lengths up to 40, alphabets of 2-4 lines including the empty line, n from {0,1,2,3,5,8,100} (n larger than every gap). The edit script slice.EditScript returned is recorded with the input (oracle) and compared with d.Edits; every fourth case carries no oracle and is predicted by the composed model (model of slice.EditScript + chunk model). A case is non-trivial when there is at least one chunk and n > 0; counters say how many cases had several chunks, overlapping or adjacent chunks after AddContext, chunks merged by Unify, chunks kept apart by Unify."
 
 func gen(g *tr.G) {
+	k := 0
 	emit := func(n int, lhs, rhs []string, tag string) {
 		in := input(n, lhs, rhs)
+		if k++; k%4 == 0 { // every fourth case without the oracle (composed model)
+			in = "C " + strconv.Itoa(n) + " " + tr.HexList(lhs) + " " + tr.HexList(rhs)
+			g.W.Count("composed-no-oracle", 1)
+		}
 		out := g.Emit(in, false)
 		nt, tags := tagsFor(n, out)
 		if nt {
